@@ -269,7 +269,7 @@ func vpH_C08_req() {
 			out := ss.handleSendMsg(&mergeHandlerSessionSendMsg{Idx: i, Msg: m})
 			sent := !isNilServerMsg(out)
 			if sent {
-				vpAssert(vpSameObject(out, m), "C08.forwarded-unchanged")
+				vpAssert(vpUnchanged(out, m), "C08.forwarded-unchanged")
 			}
 			if closed {
 				break // unconstrained after CLOSE
@@ -307,7 +307,7 @@ func vpH_C08_req() {
 			}
 			vpAssert(allE == sent, "C08.eose-exactly-when-all-children-sent-theirs")
 			if sent {
-				vpAssert(vpSameObject(out, m), "C08.eose-unchanged")
+				vpAssert(vpUnchanged(out, m), "C08.eose-unchanged")
 				eoseSeen = true
 			}
 		case 2: // client CLOSE
@@ -323,6 +323,6 @@ func vpH_C08_req() {
 	}
 	// messages of other types pass through unchanged
 	nt := NewServerNoticeMsg("x")
-	vpAssert(vpSameObject(ss.handleSendMsg(&mergeHandlerSessionSendMsg{Idx: 0, Msg: nt}), nt), "C08.other-messages-pass")
+	vpAssert(vpUnchanged(ss.handleSendMsg(&mergeHandlerSessionSendMsg{Idx: 0, Msg: nt}), nt), "C08.other-messages-pass")
 	vpReach("end")
 }
